@@ -112,7 +112,8 @@ class Layout:
                 shutil.copyfile(src, path.with_name("_bisect" + SO_SUFFIX))
                 continue
             at = primary.get(("/", "w", SPN[f["i"] - 1], *f["r"]))
-            head = import_lines(case, at, self.has_so) if at is not None else ""
+            # compiled sub-module under static analysis: the package is imported for it, keep our imports away from that
+            head = import_lines(case, at, self.has_so and case["agent"] == "visit") if at is not None else ""
             path.write_text(head + (BODY_PYI if base.endswith(".pyi") else BODY_PY))
 
     def search_paths(self, form: str, cwd: Path) -> list:
